@@ -1,5 +1,7 @@
 import logging
 
+import numpy as np
+
 from ..data import Data
 from ..decorators import (
     _display_or_return,
@@ -329,7 +331,8 @@ class PropertiesData(Properties):
             for prop in ("_FillValue", "missing_value"):
                 x = v.get_property(prop, None)
                 if x is not None:
-                    fill_values.append(x)
+                    # Note: 'missing_value' may be a vector
+                    fill_values.extend(np.ravel(x))
 
             kwargs = {"inplace": True, "fill_values": fill_values}
 
